@@ -143,7 +143,7 @@ class C19(World):
             client = sched.randrange(swarm["clients"])
             choices = [("new_stream", 2 if n_s < MAX_STREAMS else 0.3)]
             if n_s:
-                choices += [("set", 4 * swarm["w_stream"]), ("set_heat_flow", 1 * swarm["w_stream"])]
+                choices += [("set", 4 * swarm["w_stream"]), ("set_heat_flow", 1 * swarm["w_stream"]), ("set_other", 0.6 * swarm["w_stream"])]
             choices += [("new_coll", 1.5 if n_c < MAX_COLLS else 0.1)]
             if n_c and n_s:
                 w = swarm["w_coll"]
@@ -159,6 +159,11 @@ class C19(World):
                     st["np"] = args.choice(["int64", "int32", "float64"])  # a NumPy scalar, as produced by arr.max() or a DataFrame cell
                 if attr in ("t_supply", "t_target") and not swarm["flip"]:
                     st["keep_dir"] = True  # resolved at execution: value is mirrored so that the direction is kept
+            elif op == "set_other":
+                # the other public setters of a stream: none of them may disturb the four stated relations
+                attr = args.choice(["price", "name", "active", "is_process_stream", "P_supply", "P_target", "h_supply", "h_target"])
+                val = {"price": args.choice([0.0, 10.0, 250.5]), "name": args.choice(names), "active": args.random() < 0.5, "is_process_stream": args.random() < 0.5}.get(attr, args.choice([101.3, 500.0, None]))
+                st = dict(op="set_other", s=args.randrange(64), attr=attr, v=val)
             elif op == "set_heat_flow":
                 st = dict(op="set_heat_flow", s=args.randrange(64), v=_duty(args, nice, swarm), units=args.random() < 0.3)
             elif op == "new_coll":
@@ -418,6 +423,23 @@ class C19(World):
                         check_stream(len(streams) - 1, step, op)
                         streams.pop()
                         flags.pop()
+            elif op == "set_other":
+                if not streams:
+                    outcome = "skip"
+                else:
+                    i = st["s"] % len(streams)
+                    try:
+                        setattr(streams[i], st["attr"], st["v"])
+                        repr(streams[i])
+                        outcome = "ok"
+                    except Exception as e:
+                        outcome = "raise:" + type(e).__name__
+                    touched_stream = i
+                    if st["attr"] == "name":
+                        for j, m in enumerate(models):
+                            if any(si == i for _, si in m) and "name" in sort_attrs(cmeta[j]):
+                                cmeta[j]["stale"] = True
+                    probe("other_setter_called")
             elif op in ("set", "set_heat_flow"):
                 if not streams:
                     outcome = "skip"
@@ -612,6 +634,13 @@ class C19(World):
                     got = False
                 if got != present:
                     V("contains", op + "|structural", step, f"coll {j}: c[{st['key']!r}] found={got}, model {present}")
+                try:  # read-only surface: must not disturb anything (judged by the invariants that follow)
+                    repr(c)
+                    c == c
+                    c == colls[(j + 1) % len(colls)]
+                    bool(c != 5)
+                except Exception as e:
+                    log.append(("poke_exc", type(e).__name__))
                 n = len(m)
                 i = st["i"]
                 try:
